@@ -27,7 +27,7 @@ ASSUMPTIONS = [
     "only the part on the lookup path; bound = 2*M + 4*(request + 2 buffers) + 64 KiB; on the large configurations the "
     "allocated payload is >= 3x that bound (ratio reported under maxima), so a scan or payload-proportional cost exceeds it",
     "format limits used: QCOW2 host offsets < 2^56, hosted VMDK 2^32-1 sectors, SE-sparse 2^35 sectors (table sizes kept "
-    "loadable), VHDX 64 TiB, VHD 2040 GiB, VDI int32 block indices, HDS uint32 BAT entries",
+    "loadable), VHDX 64 TiB, SE-sparse also at 20 TiB (directory of 10 MiB), VHD 2040 GiB, VDI int32 block indices, HDS uint32 BAT entries",
     "reads that fall into gaps between the builder's extents (zero padding of structures) are not payload",
 ]
 ALPHABET = "format x scale x placement x density x request"
@@ -51,7 +51,7 @@ FORMATS = {
     "qcow2-2m": dict(unit=2 * MB, scales={"small": 4099, "2t": (1 << 20) + 5}, places=["low", "b32"]),
     "vmdk-stream": dict(unit=65536, scales={"small": 1 << 14, "4g": (1 << 16) + 77, "limit": (1 << 25) - 1},
                         places=["low", "b32", "top"]),
-    "vmdk-sesparse": dict(unit=4096, scales={"small": 1 << 16, "4g": (1 << 20) + 77, "2t": (1 << 29) + 5, "limit": 1 << 32},
+    "vmdk-sesparse": dict(unit=4096, scales={"small": 1 << 16, "4g": (1 << 20) + 77, "2t": (1 << 29) + 5, "limit": 1 << 32, "20t": (5 << 30) + 3},
                           places=["low", "b32", "s32", "top"]),
     "vhdx": dict(unit=32 * MB, scales={"small": 64, "4g": 130, "2t": (1 << 16) + 3, "limit": 1 << 21},
                  places=["low", "b32", "s32", "top"]),
